@@ -633,6 +633,8 @@ func (m *Machine) intrinsic(name string, fn *ssa.Function, args []Val) (Val, boo
 			return BoolToBV(64, t), true
 		}
 		return Zext(64, t), true
+	case "vfWitness0":
+		return Const(64, 0), true
 	case "vfUF":
 		m.ufOn[m.strConcrete(args[0].(Str))] = true
 		return nil, true
